@@ -858,8 +858,11 @@ class StrategyBase(Node):
         if self._paper_trade:
             if newpt:
                 self._paper.update(date)
-                self._paper.run()
-                self._paper.update(date)
+                # the paper copy is a backtest of its own: once it has gone
+                # bankrupt its algos no longer run (as in Backtest.run)
+                if not self._paper.bankrupt:
+                    self._paper.run()
+                    self._paper.update(date)
             # update price
             self._price = self._paper.price
             _writeable_values(self._prices)[inow] = self._price
